@@ -162,6 +162,12 @@ func VrfC01Apply() {
 	cc := &Consensus{ctx: context.Background(), config: &Config{}}
 	cc.rpcClient = rpc.NewClientWithServer(nil, "vrf", srv)
 	typ := vrf_nondet_int("op_type")
+	// the operation types as plain integers (whatever the declared type of the constants)
+	opPin, opUnpin := int(LogOpType(LogOpPin)), int(LogOpType(LogOpUnpin))
+	// the log encoding omits zero-valued fields (codec "omitempty") and the state
+	// machine decodes every entry onto one shared operation object: an operation
+	// type that is the zero value would keep the type of the previous entry
+	vrf_assert(opPin != 0 && opUnpin != 0 && opPin != opUnpin, "C01.apply.op-types-survive-encoding")
 	op := &LogOp{Cid: pin, Type: LogOpType(typ), consensus: cc}
 	st.failNext = vrf_nondet_bool("state_write_fails")
 	vrf_note_int("op_type", typ)
@@ -170,7 +176,7 @@ func VrfC01Apply() {
 	vrfSettle()
 
 	vrf_assert(op.Cid == nil, "C01.apply.op-cleared")
-	known := typ == LogOpPin || typ == LogOpUnpin
+	known := typ == opPin || typ == opUnpin
 	if known && st.failNext {
 		vrf_assert(err != nil && res == nil, "C01.apply.error-reported")
 		vrf_assert(len(trk.tracked) == 0 && len(trk.untracked) == 0, "C01.apply.error-no-track")
@@ -182,9 +188,9 @@ func VrfC01Apply() {
 	for i := 0; i < 3; i++ {
 		j := st.find(vrfCid(i))
 		switch {
-		case i == target && typ == LogOpPin:
+		case i == target && typ == opPin:
 			vrf_assert(j >= 0 && vrfSamePin(st.pins[j], &pinCopy), "C01.apply.post-state")
-		case i == target && typ == LogOpUnpin:
+		case i == target && typ == opUnpin:
 			vrf_assert(j < 0, "C01.apply.post-state")
 		default: // other CIDs, or an unknown operation type: unchanged
 			if before[i] == nil {
@@ -201,12 +207,12 @@ func VrfC01Apply() {
 	}
 	vrf_assert(count <= 3, "C01.apply.one-entry-per-cid")
 	switch {
-	case typ == LogOpPin:
+	case typ == opPin:
 		vrf_assert(len(trk.tracked) == 1 && len(trk.untracked) == 0, "C01.apply.tracker-called-once")
 		if len(trk.tracked) == 1 {
 			vrf_assert(vrfSamePin(trk.tracked[0], &pinCopy), "C01.apply.tracker-args")
 		}
-	case typ == LogOpUnpin:
+	case typ == opUnpin:
 		vrf_assert(len(trk.untracked) == 1 && len(trk.tracked) == 0, "C01.apply.tracker-called-once")
 		if len(trk.untracked) == 1 {
 			vrf_assert(trk.untracked[0].Cid.Equals(pinCopy.Cid), "C01.apply.tracker-args")
